@@ -72,6 +72,12 @@ CONF = {
         "tiers": tiers(8, 4000, 16, 100000),
         "require_classes": ["dir:read", "dir:write", "fast-path-type", "closer", "ewma", "capped", "ewma-samples-checked"],
     },
+    "C06": {
+        "rule": "cases = sequential manual-refresh scenarios (2-8 bars with and without BarPriority incl. equal and extreme values, SetPriority, UpdateBarPriority immediate and lazy, completions, aborts, removal, queued successors, pop mode, render cycles anywhere); non-trivial = a frame with >=3 bars, >=1 priority change and >=3 frames whose order is checked; distinct by FNV-64 of the scenario JSON",
+        "assumptions": GO_ASSUME + SCHED_ASSUME + ["effective priorities come from the reference frame model (creation order, explicit priority, last immediate change, lazy change from the frame after next, predecessor's priority for a promoted successor, finishing order in pop mode); ties and the frame after a lazy change accept any order", "priorities are kept above the range pop mode reserves for finished bars (math.MinInt32 + number of popped bars)"],
+        "tiers": tiers(8, 1500, 16, 40000),
+        "require_classes": ["pop", "lazy-change", "immediate-change", "frame-after-lazy", "extreme-priority", "successor-displayed", "popped>=2"],
+    },
     "C05": {
         "rule": "cases = sequential scenarios (container config, 1-7 bar specs, program of add/incr/set/abort/priority/write/tick/cancel steps) drawn by rapid; non-trivial = >=3 frames and >=1 change of the displayed set between frames; distinct by FNV-64 of the scenario JSON",
         "assumptions": GO_ASSUME + SCHED_ASSUME + ["one output Write call = one frame (cwriter flushes its buffer with a single Write)", "exact frame model only for manual refresh, sequential client and queue length > number of bars; otherwise history invariants"],
